@@ -3,7 +3,7 @@ import itertools, random
 from vcheck import Stream, sx_str
 
 PROPERTY = "C17"
-PROPS_VO = "Props/C17"
+PROPS_VO = ["Props/C17", "Props/C17io"]
 AXIOMS_OK = []
 ASSUMPTIONS = [
     "capacity >= 1 and within the cast bound cap_ok (Queue kind: capacity <= 2^30, Stack kind: capacity <= 2^31 - 1): get_index computes in i32; beyond the Queue bound `(end + i) as i32` wraps (Example C17_queue_cast_bound_sharp) — such a buffer needs > 2^30 cells and is not exercised",
@@ -71,7 +71,7 @@ def rand_history(rng, cap, n):
     return ops
 
 
-def streams(seed, tier):
+def buffer_streams(seed, tier):
     rng = random.Random(seed)
     out = []
     caps = (1, 2, 3, 4)
@@ -128,7 +128,13 @@ LEVEL_TEXT = ("Machine-checked theorem C17_buffer_refines_bounded_seq: for every
               "plain push ignored when full, forced push drops the oldest, Queue pops the oldest / Stack pops the newest, get(i) = i-th oldest / i-th newest, iteration oldest first, printing exactly the live items newest first, size = number of live items <= capacity "
               "(C17_buffer_inv_preserved, C17_buffer_step_refines, C17_buffer_run_refines from any state satisfying the invariant; C17_spec_bounded; C17_to_string_live_items_newest_first; C17_iter_live_items_oldest_first; C17_get_by_kind). "
               "The model is tied to the code by running every sequence of 7 (thorough: 8) mutators with all observers after every step for capacities 1..4 and both kinds, every whole-API history up to length 3 (4), and random histories of 500 operations, "
-              "on the real PushBuffer<i32> and on the extracted model, and by evaluating the specification itself on the implementation's outputs (C17_suite_result_is_spec: inside the quantifier the model's printed result is the specification's).")
+              "on the real PushBuffer<i32> and on the extracted model, and by evaluating the specification itself on the implementation's outputs (C17_suite_result_is_spec: inside the quantifier the model's printed result is the specification's)."
+              " Instruction level (Props/C17io.v): C17_io_fifo proves for every input queue and every sequence of INPUT.READ/GET/NEXT/AVAILABLE/STACKDEPTH and OUTPUT.* instructions, run through the interpreter with the real registry, that reads see exactly the oldest unconsumed message, NEXT consumes exactly it, and OUTPUT.WRITE enqueues in program order (ignored when the 3-slot queue is full); tied by exhaustive/random INPUT/OUTPUT instruction sequences on the real interpreter.")
 LEVEL_NOTE = ("Trusted: Coq kernel, extraction (ExtrOcamlBasic), ocaml/driver.ml, the Rust harness and generators; theorems are closed under the global context (no axioms). "
               "The model is hand-written: behaviour outside the generated histories is tied only by the proof-to-model link, not to the code. "
               "to_string is modelled as repaired by fixes/C17-buffer-to_string.patch; until that patch is applied to /repo the check reports the pinned defect (known_findings.jsonl: buffer-to_string-start-slot).")
+
+
+def streams(seed, tier):
+    from gen import iogen
+    return buffer_streams(seed, tier) + iogen.io_streams(seed, tier)
